@@ -188,7 +188,7 @@ func (exp TemplateFileGoExpression) Write(w io.Writer, indent int) error {
 	if exp.BeforePackage {
 		in += "\\\\formatstring\npackage p\n\\\\formatstring"
 	}
-	data, err := format.Source([]byte(in))
+	data, err := formatGo([]byte(in))
 	if err != nil {
 		return writeIndent(w, indent, exp.Expression.Value)
 	}
@@ -696,7 +696,7 @@ func (e Element) indentChildren() bool {
 		}
 		// So does raw Go code that is written over several lines.
 		if code, isGoCode := n.(GoCode); isGoCode {
-			formatted, err := format.Source([]byte(code.Expression.Value))
+			formatted, err := formatGo([]byte(code.Expression.Value))
 			if err != nil {
 				formatted = []byte(code.Expression.Value)
 			}
@@ -908,10 +908,26 @@ func (ea ExpressionAttribute) String() string {
 	return sb.String()
 }
 
+// formatGo formats Go code with gofmt. One run of gofmt does not always reach the form gofmt itself
+// settles on (a composite literal whose closing brace stands alone on a line is joined in the
+// second run), and code that changes when it is formatted again would change with every run of
+// templ fmt, so the code is formatted until it is stable.
+func formatGo(src []byte) ([]byte, error) {
+	formatted, err := format.Source(src)
+	for i := 0; i < 3 && err == nil; i++ {
+		again, againErr := format.Source(formatted)
+		if againErr != nil || bytes.Equal(again, formatted) {
+			break
+		}
+		formatted = again
+	}
+	return formatted, err
+}
+
 func (ea ExpressionAttribute) formatExpression() (exp []string) {
 	trimmed := strings.TrimSpace(ea.Expression.Value)
 	if !strings.Contains(trimmed, "\n") {
-		formatted, err := format.Source([]byte(trimmed))
+		formatted, err := formatGo([]byte(trimmed))
 		if err != nil {
 			return []string{trimmed}
 		}
@@ -922,7 +938,7 @@ func (ea ExpressionAttribute) formatExpression() (exp []string) {
 	buf.WriteString(trimmed)
 	buf.WriteString("\n}")
 
-	formatted, err := format.Source(buf.Bytes())
+	formatted, err := formatGo(buf.Bytes())
 	if err != nil {
 		return []string{trimmed}
 	}
@@ -1168,7 +1184,7 @@ func (tee TemplElementExpression) ChildNodes() []Node {
 }
 func (tee TemplElementExpression) IsNode() bool { return true }
 func (tee TemplElementExpression) Write(w io.Writer, indent int) error {
-	source, err := format.Source([]byte(tee.Expression.Value))
+	source, err := formatGo([]byte(tee.Expression.Value))
 	// Code that gofmt does not format is written as it stands: lines that are indented here
 	// without having been normalised first would move further right with every run.
 	verbatim := err != nil
@@ -1176,7 +1192,7 @@ func (tee TemplElementExpression) Write(w io.Writer, indent int) error {
 		source = []byte(tee.Expression.Value)
 	}
 	// Indent all lines and re-format, we can then use this to only re-indent lines that gofmt would modify.
-	reformattedSource, err := format.Source(bytes.ReplaceAll(source, []byte("\n"), []byte("\n\t")))
+	reformattedSource, err := formatGo(bytes.ReplaceAll(source, []byte("\n"), []byte("\n\t")))
 	if err != nil {
 		reformattedSource = source
 	}
@@ -1379,7 +1395,7 @@ func (gc GoCode) Write(w io.Writer, indent int) error {
 	if isWhitespace(gc.Expression.Value) {
 		gc.Expression.Value = ""
 	}
-	source, err := format.Source([]byte(gc.Expression.Value))
+	source, err := formatGo([]byte(gc.Expression.Value))
 	if err != nil {
 		source = []byte(gc.Expression.Value)
 	}
@@ -1478,7 +1494,7 @@ func (s ScriptTemplate) Write(w io.Writer, indent int) error {
 // formatFunctionArguments formats the function arguments, if possible.
 func formatFunctionArguments(expression string) string {
 	source := []byte(expression)
-	formatted, err := format.Source([]byte("func " + expression))
+	formatted, err := formatGo([]byte("func " + expression))
 	if err == nil {
 		formatted = bytes.TrimPrefix(formatted, []byte("func "))
 		source = formatted
